@@ -339,6 +339,8 @@ func buildItems(tierName string, seed int64) []Item {
 	registryItems(add, thorough)
 	// 10. payload sizes around the unpack limit (unpacklimit.go)
 	unpackLimitItems(add)
+	// 11. scripted frames naming an unregistered filter, websocket sub-protocols (wsleaf.go)
+	wsLeafItems(add, thorough)
 	return items
 }
 
@@ -1098,6 +1100,8 @@ func main() {
 			runE2E(it, r)
 		case "script":
 			runScript(it)
+		case "script-leaf":
+			runScriptLeaf(it)
 		case "stream":
 			runStreamLimit(it, r)
 		case "e2e-limit":
